@@ -82,15 +82,22 @@ def judge(case):
 
 
 def judge_outevent(case):
-    ret, formals, wrap = case['outevent']
+    ret, formals, wrap = case['outevent'][:3]
+    spelled = case['outevent'][3] if len(case['outevent']) > 3 else 'out'
     # the first formal is named like the event itself
-    event = ['Ev', 'out', ret, [['Ev' if i == 0 else f'a{i}', ['T'], d] for i, d in enumerate(formals)]]
+    event = ['Ev', spelled, ret, [['Ev' if i == 0 else f'a{i}', ['T'], d] for i, d in enumerate(formals)]]
     doc = [['extern', 'T', 'int'], ['interface', 'I', [['enum', 'E', ['A']]],
                                     [['Before', 'in', ['void'], []], event]]]
     if wrap:
         doc = [['ns', ['N', 'M'], doc]]
     verdict, detail = classify(D.to_json(doc))
     must_refuse = ret != ['void'] or 'out' in formals
+    if spelled != 'out':
+        # a direction that is not literally in/out: refusing the document is always fine; treating it as an
+        # out event is only fine if the out-event rules are then applied as well
+        if verdict == 'DznJsonError' or (verdict == 'result' and not must_refuse):
+            return []
+        return [('misspelled-out-event-not-refused', f'direction={spelled!r} verdict={verdict} reply={ret} formals={formals}')]
     if must_refuse and verdict != 'DznJsonError':
         return [('out-event-not-refused', f'verdict={verdict} reply={ret} formals={formals}')]
     if not must_refuse and verdict != 'result':
@@ -231,8 +238,9 @@ def work(job):
         for ret in rets:
             for n in range(0, 3):
                 for formals in itertools.product(('in', 'out', 'inout'), repeat=n):
-                    for wrap in (False, True):
-                        case = {'outevent': [ret, list(formals), wrap]}
+                    for wrap, spelled in ((False, 'out'), (True, 'out'), (False, 'Out'), (False, 'OUT'), (True, 'oUt'),
+                                          (False, ' out'), (False, 'out ')):
+                        case = {'outevent': [ret, list(formals), wrap, spelled]}
                         res = judge(case)
                         part.evaluations += 1
                         part.states += 1
